@@ -16,7 +16,10 @@ RULE = ('A case is one directory (valid sources of the converter under test from
         'truncations, bit flips, header damage, word/number overwrites, splices, empty files, and foreign formats; bad files placed '
         'first/last/biggest/smallest by name and size) converted by the real batch functions in a child process: sequentially, with '
         'jobs in {1,2,3,4,8,16} worker processes under seeded injected delays, and file by file.  Distinct by directory content; '
-        'non-trivial = >= 2 valid and >= 2 damaged files and a multi-process run in which two tasks overlapped in time.')
+        'non-trivial = >= 2 valid and >= 2 damaged files and a multi-process run in which two tasks overlapped in time.  One shard per '
+        'converter (quick: RP66V1 only) also converts one directory of more than a thousand small files (byte-identical copies of three '
+        'valid sources under distinct names, four damaged files among them) sequentially, with one and with eight workers: every copy must '
+        'convert like the first copy of its source and the three modes must agree.')
 ASSUMPTIONS = [
     'results are compared without the time field; output files without the CREA. (creation time) line, as the property allows',
     'file names in a directory have distinct stems (the output name is derived from the stem); same-stem inputs are not generated',
@@ -36,6 +39,7 @@ NSHARDS = {'quick': 8, 'thorough': 12}
 DIRS = {'quick': 4, 'thorough': 12}            # directories per shard
 JOBS = {'quick': [2, 4, 16], 'thorough': [1, 2, 3, 4, 8, 16]}
 DELAY_SEEDS = {'quick': 1, 'thorough': 2}
+BULK_FILES = {'quick': 1150, 'thorough': 2600}      # files in the 'many small files' directory
 TIMEOUT_S = {'quick': 420, 'thorough': 3400}
 CHILD_TIMEOUT = 180
 STEP_BUDGET = 40_000_000     # lines of Python for one single-file conversion; the generated files take 10^4..10^6
@@ -45,7 +49,9 @@ RE_CREA = re.compile(r'^CREA\..*$', re.M)
 
 def plan(tier, seed):
     n = NSHARDS[tier]
-    return [{'dirs': DIRS[tier], 'converter': CONVERTERS[i % len(CONVERTERS)]} for i in range(n)]
+    # one shard per converter (quick: the RP66V1 one only) also converts a directory of more than a thousand small files
+    return [{'dirs': DIRS[tier], 'converter': CONVERTERS[i % len(CONVERTERS)],
+             'bulk': BULK_FILES[tier] if (i < (1 if tier == 'quick' else len(CONVERTERS))) else 0} for i in range(n)]
 
 
 def read_tree(root):
@@ -280,6 +286,117 @@ def run_shard(ctx, p):
                  sample={'converter': conv, 'files': [(f['name'], f['kind'], len(f['data'])) for f in case['files']], 'options': opts,
                          'completion_orders_seen': [list(o) for o in sorted(orders)][:3]})
         shutil.rmtree(tmp, ignore_errors=True)
+    if p.get('bulk'):
+        bulk_directory(ctx, conv, p['bulk'])
+
+
+def bulk_directory(ctx, conv, nfiles):
+    """More than a thousand small files in one directory (copies of three valid files under distinct names, a few damaged
+    ones among them): whatever a process accumulates per file (queues, caches, descriptors) is exercised.  Sequential, one
+    worker and eight workers must agree with each other, and every copy of a valid file must convert like its first copy."""
+    from tdv.core import env
+    from tdv.gen import batchdirs, corrupt
+    rec, rng = ctx.rec, ctx.rng
+    tmp = os.path.join(os.environ['VERIF_SHARD_TMP'], 'bulk')
+    din = os.path.join(tmp, 'in')
+    os.makedirs(din)
+    fmt = batchdirs.FAMILY[conv][0]
+    srcs = []
+    for _ in range(40):
+        v = batchdirs.valid_sources(rng, fmt, 1)[0]
+        if len(v.data) <= 6000 and not (isinstance(v.describe, dict) and 0 in (v.describe.get('logpasses') or [])):
+            srcs.append(v)
+        if len(srcs) == 3:
+            break
+    if not srcs:
+        rec.inconclusive_because('no small valid %s source for the bulk directory' % conv)
+        return
+    ext = batchdirs.EXT[fmt]
+    names, kinds, src_of = [], {}, {}
+    bad_at = set(rng.sample(range(nfiles), 4))
+    for i in range(nfiles):
+        name = 'k%05d%s' % (i, ext)
+        if i in bad_at:
+            op, data = corrupt.mutate(rng, srcs[0].data, other=srcs[-1].data, boundaries=srcs[0].boundaries)
+            kinds[name] = 'damaged:%s:op=%s' % (fmt, op)
+        else:
+            data = srcs[i % len(srcs)].data
+            kinds[name] = 'valid:%s:%s' % (conv, fmt)
+            src_of[name] = i % len(srcs)
+        with open(os.path.join(din, name), 'wb') as fh:
+            fh.write(data)
+        names.append(name)
+    opts = {'array_reduction': 'first', 'frame_slice': {}, 'channels': [], 'field_width': 16, 'float_format': '.3f'}
+    base = {'repo': env.REPO, 'converter': conv, 'dir_in': din, 'native_preseed': True, 'max_delay_ms': 0, 'recurse': False}
+    base.update(opts)
+    observed = {}
+    for tag, mode, jobs in (('bulk_seq', 'seq', 0), ('bulk_mp1', 'mp', 1), ('bulk_mp8', 'mp', 8)):
+        spec = dict(base, tag=tag, mode=mode, jobs=jobs, delay_seed=0, dir_out=os.path.join(tmp, 'out_' + tag))
+        status, res, events, wall = run_child(tmp, spec)
+        rec.add('bulk_batch_runs', 1)
+        rec.maxi('max_bulk_batch_wall_s', round(wall, 2))
+        w = {'converter': conv, 'mode': tag, 'files': '%d files: %d copies of %d valid sources, damaged at %s' % (nfiles, nfiles - len(bad_at), len(srcs), sorted(bad_at)), 'options': opts}
+        if status == 'watchdog':
+            rec.inconclusive_because('bulk run %s of converter %s hit the %ds wall-clock watchdog' % (tag, conv, CHILD_TIMEOUT))
+            continue
+        rec.mon('no_abort')
+        if res is None or status != 'ok':
+            rec.violation('no_abort', 'child-died', 'bulk batch run %s died: %s' % (tag, status), dict(w, status=status))
+            continue
+        if res['raised']:
+            rec.violation('no_abort', 'batch-raised', 'bulk batch conversion (%s, %s, %d files) raised %s' % (conv, tag, nfiles, res['raised']), dict(w, raised=res['raised'], traceback=res.get('traceback')))
+            continue
+        rec.mon('one_result_per_input')
+        got = sorted(res['results'])
+        if got != names:
+            rec.violation('one_result_per_input', 'result-keys', '%s %s: %d results for %d inputs (missing %s, extra %s)' % (
+                conv, tag, len(got), len(names), sorted(set(names) - set(got))[:5], sorted(set(got) - set(names))[:5]), dict(w, got=len(got)))
+        ev = analyse_events(events, din)
+        rec.mon('worker_events', len(events))
+        rec.add('tasks_observed', len(ev['order']))
+        rec.mon('exactly_once_output')
+        for path, tasks in sorted(ev['writers'].items()):
+            if len(tasks) > 1:
+                rec.violation('exactly_once_output', 'two-writers', '%s %s: output %s opened for writing by tasks %s' % (conv, tag, os.path.basename(path), sorted(tasks)), dict(w, path=os.path.basename(path), tasks=sorted(tasks)))
+                break
+        tree = read_tree(spec['dir_out']) if os.path.isdir(spec['dir_out']) else {}
+        observed[tag] = {'results': res['results'], 'tree': tree}
+        # every copy of a valid source converts like the first copy of that source in this very run
+        rec.mon('valid_files_converted')
+        first = {}
+        for n in names:
+            if n not in src_of or n not in res['results']:
+                continue
+            r = res['results'][n]
+            sig = (r['binary_file_type'], r['size_input'], r['size_output'], r['las_count'], r['exception'], r['ignored'])
+            k = src_of[n]
+            if k not in first:
+                first[k] = (n, sig)
+                if r['exception'] or r['ignored'] or r['las_count'] < 1:
+                    rec.violation('valid_files_converted', 'valid-not-converted', '%s %s: valid file %s -> %s' % (conv, tag, n, r), dict(w, file=n, result=r, input=srcs[k].data))
+            elif sig != first[k][1]:
+                rec.violation('valid_files_converted', 'copy-differs', '%s %s: %s is a byte-identical copy of %s but its result is %s, not %s (file %d of %d in name order)' % (
+                    conv, tag, n, first[k][0], sig, first[k][1], names.index(n) + 1, len(names)), dict(w, file=n, first_copy=first[k][0], result=r, position=names.index(n)))
+                break
+        shutil.rmtree(spec['dir_out'], ignore_errors=True)
+    ref = observed.get('bulk_seq')
+    for tag, ob in sorted(observed.items()):
+        if ref is None or tag == 'bulk_seq':
+            continue
+        rec.mon('results_mode_independent')
+        diff = [n for n in names if ref['results'].get(n) != ob['results'].get(n)]
+        if diff:
+            rec.violation('results_mode_independent', 'result-differs', '%s bulk: results of %d files differ between sequential and %s, first %s: %s vs %s' % (
+                conv, len(diff), tag, diff[0], ref['results'].get(diff[0]), ob['results'].get(diff[0])), {'converter': conv, 'other_mode': tag, 'differing': diff[:20], 'options': opts})
+        rec.mon('outputs_mode_independent')
+        if ref['tree'] != ob['tree']:
+            only_a = sorted(set(ref['tree']) - set(ob['tree']))
+            only_b = sorted(set(ob['tree']) - set(ref['tree']))
+            dif = sorted(k for k in set(ref['tree']) & set(ob['tree']) if ref['tree'][k] != ob['tree'][k])
+            rec.violation('outputs_mode_independent', 'tree-differs', '%s bulk: output tree differs between sequential and %s: only-sequential %s only-%s %s content-differs %s' % (
+                conv, tag, only_a[:4], tag, only_b[:4], dif[:4]), {'converter': conv, 'other_mode': tag, 'only_seq': only_a[:50], 'only_other': only_b[:50], 'content_differs': dif[:50], 'options': opts})
+    rec.case('bulk:%s:%d:%s' % (conv, nfiles, [len(v.data) for v in srcs]), len(observed) == 3, classes=['converter:' + conv, 'directory:bulk-%d-files' % nfiles])
+    shutil.rmtree(tmp, ignore_errors=True)
 
 
 @classifier('c12_lis_log_pass_without_frames')
